@@ -200,6 +200,9 @@ func dec(v reflect.Value) int {
 			}
 			return -4
 		}
+		if v.Elem().Kind() == reflect.Func {
+			return -7 // the driver never boxes a func in an interface value: something else's func arrived here
+		}
 		return dec(v.Elem())
 	}
 	return -9
